@@ -151,6 +151,7 @@ class Machine:
             self.paths.append(self._ipath_recipe(ii))
         self.sessions = []      # [(kind, ctxX, ctxY)] open pull sessions
         self.new_id = 0
+        self.last_call = {}
 
     def _ipath_recipe(self, ii):
         inst = self.recipe['instances'][ii]
@@ -275,6 +276,8 @@ class Machine:
                   'iter', 'iter', 'class', 'class', 'qual', 'query',
                   'invoke', 'invoke', 'classmod']
         g = groups[draw(S._I100) % len(groups)]
+        if draw(S._I100) < 7:
+            return {'op': 'Again'}
         tri = lambda: draw(S._TRI)  # noqa: E731
         ns_arg = lambda: draw(st.sampled_from(  # noqa: E731
             [None, None] + self.nss + [self.nss[0] + '/', '/' + self.nss[0],
@@ -588,7 +591,20 @@ class Machine:
                                          len(self.sessions)]
             ctx = cx if side == 'X' else cy
             return self._call(lambda: conn.CloseEnumeration(ctx))
-        return self._call(lambda: O.invoke(conn, step))
+        if op == 'Again':
+            # the previous call once more, with the very same argument
+            # objects (a caller that keeps using its objects): an operation
+            # that modified its arguments shows here
+            last = self.last_call.get(side)
+            if last is None:
+                return ('skip', None)
+            lstep, lkw = last
+            if any(hasattr(v, '__next__') for v in lkw.values()):
+                return ('skip', None)       # one-shot iterator: used up
+            return self._call(lambda: O.invoke(conn, lstep, kwargs=lkw))
+        kw = O.build_call(step)
+        self.last_call[side] = (step, kw)
+        return self._call(lambda: O.invoke(conn, step, kwargs=kw))
 
     @staticmethod
     def _call(fn):
@@ -607,6 +623,10 @@ class Machine:
         op = step['op']
         n_before = len(self.adapter.requests)
         s_before = len(self.facade.seen)
+        # 'Again' repeats the previous call: judged like that operation
+        eff_op = op
+        if op == 'Again' and self.last_call.get('X'):
+            eff_op = self.last_call['X'][0]['op']
         rx = self._run(self.X, step, 'X')
         ry = self._run(self.B, step, 'Y')
         if rx[0] == 'skip':
@@ -625,7 +645,7 @@ class Machine:
             # CIM-XML (PARAMETER has no such attribute; the qualifier is)
             o = Opts(host=False, defaults=True,
                      ignore=('path', 'param_embedded_object')
-                     if op in ('GetClass', 'EnumerateClasses')
+                     if eff_op in ('GetClass', 'EnumerateClasses')
                      else ('path',))
             cx = self._c16(self._rcanon(rx[1], o))
             cy = self._c16(self._rcanon(ry[1], o))
@@ -660,7 +680,8 @@ class Machine:
         # 2. the server saw what the caller supplied
         reqs = self.adapter.requests[n_before:]
         seen = self.facade.seen[s_before:]
-        if seen and not op.startswith('Iter') and op not in ('Pull', 'Close'):
+        if seen and not op.startswith('Iter') and \
+                op not in ('Pull', 'Close', 'Again'):
             self._check_seen(step, seen[0])
         # 3. requests are valid CIM-XML
         for r in reqs:
